@@ -992,6 +992,9 @@ let suite_send t v =
   let rd () = let k = ni t in times k (fun () -> let l = ni t in times l (fun () -> ni t)) in
   let ireq = rd () in
   let ifwd = rd () in
+  (* how many requests went out with a header (EncodeHeader) that lists other parts than the payload holds *)
+  let hdr_mismatch = if eol t then 0 else (expect t "H"; ni t) in
+  if hdr_mismatch > 0 then oracle v "request_header_lists_other_parts_than_the_payload_holds" false;
   let mevs = List.map (function
     | `X (n, ok) -> M.ETx (nat_of_int n, ok)
     | `R (n, ok) -> M.ERec (nat_of_int n, ok)
@@ -1074,6 +1077,7 @@ let suite_e2e t v =
   if fi "recovery_overcount" > 0 then oracle v "part_counted_as_held_not_on_record" false;
   (* C17 / C01 *)
   if fi "ineligible_touched" > 0 then oracle v "ineligible_file_sent_or_deleted" false;
+  if fi "young_sent" > 0 then oracle v "version_sent_before_its_minimum_age" false;
   if fi "alien_final" > 0 then oracle v "delivered_mixture_of_versions" false;
   (* C07 *)
   (* C07: the ordering / logging chain continues: a file confirmed before or after the restart has ONE
@@ -1655,12 +1659,62 @@ let suite_redeliver t v =
   let zone = ni t in let _tod = ni t in let _days = ni t in let variant = ni t in
   expect t "=";
   let first = ni t in let second = ni t in let nrec = ni t in let nfinal = ni t in let _staged = ni t in
+  if variant = 2 then begin
+    (* the delivered file again in front of a new file: the new file arrives with its own bytes *)
+    if first <> 200 || nrec < 1 then oracle v "not_delivered_in_the_first_place" false;
+    if second <> 200 || nfinal <> 1 then oracle v "part_behind_a_retransmitted_file_got_other_bytes" false;
+    if nrec > 1 then oracle v "delivered_version_logged_again" false
+  end else begin
   if first <> 200 || nfinal <> 1 || nrec < 1 then oracle v "not_delivered_in_the_first_place" false;
   if nrec > 1 then oracle v "delivered_version_logged_again_after_restart" false;
   if variant = 0 && second <> 1 then oracle v "delivered_version_not_recognised_after_restart" false;
-  if variant = 1 && second <> 200 then diff v "retransmission-status";
+  if variant = 1 && second <> 200 then diff v "retransmission-status"
+  end;
   v.cls <- "D";
-  v.nontrivial <- zone <> 0
+  v.nontrivial <- zone <> 0 || variant = 2
+
+(* ---- suite GN : what each source's store ignores after all sources of a sender were initialised (C19, C17) ----
+   line: GN nsrc, per source: lists (-1, or ninc ids nign ids) and tags (-1, or ntags pairs id nonhttp); then "="
+   and per source: ninc ids nign ids *)
+let suite_ignores t v =
+  let ns = ni t in
+  let srcs = times ns (fun () ->
+    let k = ni t in
+    let lists = if k < 0 then None else begin
+      let inc = times k (fun () -> nz t) in
+      let m = ni t in let ign = times m (fun () -> nz t) in Some (inc, ign) end in
+    let nt = ni t in
+    let tags = if nt < 0 then None else Some (times nt (fun () -> let id = nz t in let nh = nb t in (id, nh))) in
+    { M.is_lists = lists; is_tags = tags }) in
+  expect t "=";
+  let rows = times ns (fun () ->
+    let k = ni t in let inc = times k (fun () -> ni t) in
+    let m = ni t in let ign = times m (fun () -> ni t) in (inc, ign)) in
+  let mrows = List.map (fun (a, b) -> (List.map int_of_z a, List.map int_of_z b)) (M.ignore_table srcs) in
+  if mrows <> rows then diff v "store-ignore-lists";
+  (* a source never ignores by the pattern of a tag it does not have, and always by its own non-http tags *)
+  let eff_tags = let cur = ref [] in List.map (fun s -> (match s.M.is_tags with Some t -> cur := t | None -> ()); !cur) srcs in
+  List.iteri (fun i (_, ign) ->
+    let mine = List.map (fun (id, _) -> int_of_z id) (List.nth eff_tags i) in
+    let mine_nh = List.filter_map (fun (id, nh) -> if nh then Some (int_of_z id) else None) (List.nth eff_tags i) in
+    List.iter (fun x -> if x >= 200 && not (List.mem x mine) then oracle v "source_ignores_by_another_sources_tag" false) ign;
+    List.iter (fun x -> if not (List.mem x ign) then oracle v "non_http_tag_of_the_source_not_ignored" false) mine_nh) rows;
+  v.cls <- "D";
+  v.nontrivial <- List.exists (fun s -> s.M.is_lists = None) srcs
+
+(* ---- suite RP : the sender asks what the receiver holds (C07; implementation-only oracles) ---- *)
+let suite_partials t v =
+  let mode = ni t in let nstaged = ni t in
+  expect t "=";
+  let err = ni t in let nlisted = ni t in let bytes = ni t in
+  if mode <> 0 && err = 0 then oracle v "refused_partials_request_read_as_nothing_held" false;
+  if mode = 0 then begin
+    if err <> 0 then diff v "partials-request-failed";
+    let want = List.fold_left (fun a i -> a + 100 * (i + 1)) 0 (List.init nstaged (fun i -> i)) in
+    if nlisted <> nstaged || bytes <> want then oracle v "partials_listing_differs_from_what_is_staged" false
+  end;
+  v.cls <- "D";
+  v.nontrivial <- mode <> 0 || nstaged > 0
 
 (* ---- suite FI : finish(): one poll answer, the cache entry and the source file (C02) ---- *)
 let suite_finish t v =
@@ -1896,8 +1950,10 @@ let run_line line =
       | "SR" -> suite_race t v
       | "G" -> suite_tags t v
       | "GI" -> suite_inherit t v
+      | "GN" -> suite_ignores t v
       | "FI" -> suite_finish t v
       | "RD" -> suite_redeliver t v
+      | "RP" -> suite_partials t v
       | "P" -> suite_prune t v
       | "CA" -> suite_cache t v
       | "TK" -> suite_track t v
